@@ -57,7 +57,7 @@ DIRECTED = {
         {"cls": "TaskPool", "size": 2, "reqs": [{"kind": "apply", "num": 2, "ecb": "sfut", "ccb": "sfut"},
                                                  {"kind": "map", "num": 3, "nc": 2, "ecb": "sobj", "ccb": "sobj"}]},
         op(o="spawn", t=0), IDLE, op(o="release", id=0, out="ret"), op(o="cancel", ids=[1]), IDLE,
-        op(o="spawn", t=1), IDLE, DRAIN, {"c": "probe", "k": 2}),
+        op(o="spawn", t=1), IDLE, DRAIN, op(o="hstart", kind="flush"), IDLE, {"c": "probe", "k": 2}),
     "callback_returns_future_simple": S(
         {"cls": "SimpleTaskPool", "size": 1, "simple": {"ecb": "sobj", "ccb": "sfut"}},
         op(o="spawn", num=2), IDLE, op(o="stop", n=1), IDLE, op(o="hstart", kind="gac"), DRAIN),
@@ -68,7 +68,7 @@ DIRECTED = {
                                                  {"kind": "apply", "num": 2, "gname": "gp", "partial": True, "ecb": "swrap", "ccb": "amark"},
                                                  {"kind": "map", "num": 2, "nc": 1, "gname": "gm", "partial": True, "ecb": "amark"}]},
         op(o="spawn", t=0), op(o="spawn", t=1), IDLE, op(o="release", id=0, out="ret"), op(o="cancel", ids=[1]), IDLE,
-        op(o="spawn", t=2), IDLE, op(o="get_ids", names=[0, 1, 2]), DRAIN, {"c": "probe", "k": 2}),
+        op(o="spawn", t=2), IDLE, op(o="get_ids", names=[0, 1, 2]), DRAIN, op(o="hstart", kind="flush"), IDLE, {"c": "probe", "k": 2}),
     # KF-M: func without __name__ (functools.partial) whose call fails for one invocation/element: the others still run
     "kf_m_partial_call_fails": S(
         {"cls": "TaskPool", "size": 2, "reqs": [{"kind": "map", "num": 3, "nc": 1, "gname": "gm", "partial": True, "bad": [1]},
